@@ -104,26 +104,13 @@ func (fx *fexec) ifaceModel(name string, x *ssa.Call, recv Val, args []Val, st *
 	}
 	rt := vc.resolve(x.Type())
 	if c.Pure {
-		// uninterpreted function of receiver and arguments
-		ufn := "m_" + smtQuote(name)
-		var sig []string
-		ts := []Term{recv.T}
-		sig = append(sig, recv.T.Sort)
-		for _, a := range args {
-			if a.T.S == "" {
-				panic(engErr("pure interface method with non-term argument"))
-			}
-			sig = append(sig, a.T.Sort)
-			ts = append(ts, a.T)
-		}
 		if tup, ok := rt.(*types.Tuple); ok && tup.Len() != 1 {
 			panic(engErr("pure interface method must have one result"))
 		}
-		rs := vc.sortOf(rt)
-		vc.declUF(ufn, "("+strings.Join(sig, " ")+") "+rs)
-		v := Val{Ty: rt, T: vc.define(x.Name(), app(rs, ufn, ts...))}
+		all := append([]Val{recv}, args...)
+		t := vc.pureApp(name, all, rt, func(comp, srt string) Term { return vc.heapGet(st, comp, srt) })
+		v := Val{Ty: rt, T: vc.define(x.Name(), t)}
 		vc.assert(vc.typeInv(v.T, rt, st.alloc))
-		vc.note("interface method " + name + " modelled as a pure uninterpreted function")
 		return v, true
 	}
 	// general (assumed) contract on the interface method
